@@ -54,7 +54,7 @@ RtVerdict(e) ==
   ELSE Good
 
 IncrVerdict(e) ==
-  LET t == Incr(e.old, e.P, e.f, e.date, e.today, AsCode) IN
+  LET t == Incr(e.old, e.P, e.f, e.date, e.today, Dev) IN
   IF e.out = None \/ e.out = Raises
   THEN (IF t = e.out THEN Good ELSE <<"incr:refusal", t>>)
   ELSE LET old == ParseVersion(e.old, e.P, e.today)
